@@ -433,6 +433,7 @@ pub fn handle<F: Fl>(w: &World<F>, g: &F::Graph, k: K, prov: &str) -> Option<F::
                     meth: Meth::None,
                     res: if prov == "search-result" { ResK::Search } else { ResK::Path },
                     alt: false,
+                    tt: false,
                 };
                 let (_, nodes) = F::search(&w.nodes[r], &cfg, &mut |_| true);
                 if let Some(h) = nodes.into_iter().find(|x| F::key(x) == k) {
